@@ -234,11 +234,14 @@ impl<'a> BlockFiltersProcess<'a> {
                 .iter()
                 .map(|block_hash| (block_hash.clone(), block_hash == &prove_state_block_hash))
                 .collect::<Vec<_>>();
-            self.filter.storage.add_matched_blocks(
-                start_number,
-                actual_blocks_count as u64,
-                blocks,
-            );
+            self.filter
+                .storage
+                .add_matched_blocks_and_update_min_filtered_block_number(
+                    start_number,
+                    actual_blocks_count as u64,
+                    blocks,
+                    filtered_block_number,
+                );
             if matched_blocks.is_empty() {
                 if let Some((_start_number, _blocks_count, db_blocks)) =
                     self.filter.storage.get_earliest_matched_blocks()
